@@ -199,3 +199,54 @@ def appendable_lines(src):
       continue   # blank, comment-only (a directive there would be stand-alone), continuation, inside a string
     out.append(i)
   return out
+
+
+# ----------------------------------------------------------------------------------------------------
+# One small self-contained program per error class that pytype can report without stdlib imports
+# (typeshed is absent: `enum`, `abc`, `collections`, `typing` as a module object are not importable; `from typing
+# import X` is).  Several of them are reported on a line that is NOT the current opcode's line (explicit `line=`
+# in the error log, fake stacks, def-line annotations): incomplete-match, redundant-/invalid-function-type-comment,
+# ignored-type-comment, signature-mismatch, invalid-annotation, bad-yield-annotation, override-error.
+# Each entry: name -> source.  "|ML" variants spread the statement over several lines.
+
+SPECIALS = {
+    "incomplete-match": 'from typing import Literal\ndef mfn(x: Literal["a", "b", "c"]):\n  match x:\n    case "a":\n      return 1\n    case "b":\n      return 2\n',
+    "incomplete-match|fallthrough": 'from typing import Literal\ndef mfn(x: Literal["a", "b", "c"]):\n  match x:\n    case "a":\n      y = 1\n    case "b":\n      y = 2\n  return 0\n',
+    "incomplete-match|ML": 'from typing import Literal\ndef mfn(x: Literal["a", "b", "c"]):\n  match (x\n         ):\n    case ("a" |\n          "b"):\n      return 1\n',
+    "incomplete-match|nested": 'from typing import Literal\ndef mn(x: Literal["a", "b"], c):\n  if c:\n    match x:\n      case "a":\n        return 1\n  return 2\n',
+    "redundant-match": 'from typing import Literal\ndef mfn(x: Literal["a", "b"]):\n  match x:\n    case "a":\n      return 1\n    case "a":\n      return 3\n    case "b":\n      return 2\n',
+    "match-error": 'class Pt:\n  __match_args__ = ("x",)\n  def __init__(self, x): self.x = x\ndef mfn(p: Pt):\n  match p:\n    case Pt(1, 2):\n      return 1\n    case Pt(1,\n            3):\n      return 2\n',
+    "redundant-function-type-comment": 'def rf(x: int) -> int:  # a comment\n  # type: (int) -> int\n  return x\n',
+    "invalid-function-type-comment": 'def rf(x):\n  # type: (int, int) -> int\n  return x\ndef rg(x,\n       y):\n  # type: (abc -> int\n  return x\n',
+    "ignored-type-comment": 'x = 1\n# type: int\ny = 2\ndef two(a, b): return a\nz = two(1,  # type: int\n        2)\n',
+    "invalid-annotation": 'def ia(x: 1): pass\nv: list[int, int] = []\ndef ib(x: int,\n       y: 2) -> 3:\n  pass\n',
+    "invalid-annotation|typevar": 'from typing import TypeVar\nT = TypeVar("T")\ndef ut() -> T: pass\nxx: T = 1\n',
+    "bad-unpacking": 'a, b = (1, 2, 3)\nc, d = (1,\n        2, 3)\n',
+    "not-writable": 'class Sl:\n  __slots__ = ("a",)\ns = Sl()\ns.zz = 1\n',
+    "invalid-typevar": 'from typing import TypeVar\nT = TypeVar("S")\nU = TypeVar(\n    "V")\n',
+    "duplicate-keyword-argument": 'def two(a, b): return a\nq = two(1, 2, a=3)\nr = two(1, 2,\n        a=3)\n',
+    "base-class-error": 'class Kb(1): pass\nclass Kc(object,\n         2): pass\n',
+    "mro-error": 'class A: pass\nclass B(A): pass\nclass C(A, B): pass\n',
+    "bad-slots": 'class Bs:\n  __slots__ = (1,)\n',
+    "final-error": 'from typing import Final\nfx: Final = 1\nfx = 2\n',
+    "typed-dict": 'from typing import TypedDict\nclass TD(TypedDict):\n  a: int\ntd = TD(a="s")\ntd2: TD = {"b": 1}\n',
+    "signature-mismatch": 'class A:\n  def f(self, x): return x\nclass B(A):\n  def f(self): return 1\nclass C(A):\n  def f(self,\n        x, y): return 1\n',
+    "bad-yield-annotation": 'def gy() -> int:\n  yield 1\ndef gz(a,\n       b) -> int:\n  yield 1\n',
+    "container-type-mismatch": 'l: list[int] = []\nl.append("s")\nl.append(\n    "t")\n',
+    "reveal-type": 'def two(a, b): return a\nx = 1\nreveal_type(x)\nassert_type(x, str)\nreveal_type(two(1,\n                2))\nassert_type(two(1,\n                2), str)\n',
+    "invalid-super-call": 'def sf():\n  return super().foo\n',
+    "override-error": 'from typing import override\nclass A:\n  def f(self): pass\nclass B(A):\n  @override\n  def g(self): pass\n',
+    "bad-function-defaults": 'def bd(a): pass\nbd.__defaults__ = 1\n',
+    "bad-return-type": 'def two(a, b): return a\ndef br() -> int:\n  return two("s",\n             1)\ndef bs(c) -> int:\n  if c:\n    return "s"\n  return 1\n',
+    "annotation-type-mismatch": 'def ad(x: int = "s",\n       y: str = 1): pass\nclass Ca:\n  x: int = "s"\nv: int = (\n    "s")\n',
+    "missing-parameter|super": 'class Wi:\n  def __init__(self, a): pass\nclass Wj(Wi):\n  def __init__(self):\n    super().__init__()\n',
+    "wrong-arg-types|namedtuple": 'from typing import NamedTuple\nclass N2(NamedTuple):\n  a: int\nn = N2("s")\nm = N2(\n    "s")\n',
+    "wrong-arg-types|callable": 'from typing import Callable, Protocol\ndef cb(f: Callable[[int], str]): pass\ncb(lambda: 1)\nclass Pr(Protocol):\n  def f(self) -> int: ...\ndef up(p: Pr): pass\nup(1)\nq = isinstance(1, 2)\n',
+    "wrong-arg-count|builtin": 'q = (1).bit_length(2)\nr = (1).bit_length(\n    2)\n',
+    "attribute-error|protocols": 'with 1 as w:\n  pass\nfor i in 1:\n  pass\ndk = {"a": 1}\nq = dk["a"].nope\n',
+    "attribute-error|optional": 'def na(c):\n  x = None\n  if c:\n    x = 1\n  return x.real\nclass Cm:\n  def m(self) -> str:\n    return self.nope\n',
+    "wrong-keyword-args|star": 'def sa(a): pass\nsa(*[1, 2], **{"z": 1})\nsa(1,\n   z=2)\n',
+    "name-error|late": 'def gl():\n  return later_name\ndef gm(x: int,\n       y: "Undefined1") -> "Undefined2":\n  return x\n',
+    "duplicate-keyword-argument|attr": 'import attr\n@attr.s\nclass At:\n  x = attr.ib(default=1, factory=list)\n',
+    "unsupported-operands|index": 'lst = [1]\nq = lst["a"]\nr = 1 + "a"\ns = (1 <\n     "a")\n',
+}
